@@ -519,6 +519,138 @@ def run_tunnel(case):
     return out
 
 
+# ---------------------------------------------------------------- (e) tunnel through the serial (UART) driver
+class _FakeSerialPort:
+    """Stands in for serial.Serial: blocking read of exactly n bytes, write parsed by the peer model (sync + clear-to-send)."""
+
+    def __init__(self, device=None, baudrate=None, timeout=None):
+        self.cv = threading.Condition()
+        self.buf = bytearray([0xFF, 0x00])      # the peer's sync frame
+        self.closed = False
+        self.frames = []                        # packet frames written by the host (payload bytes between size and checksum)
+        self.bad = []
+
+    def read(self, n=1):
+        with self.cv:
+            t0 = time.time()
+            while len(self.buf) < n and not self.closed:
+                self.cv.wait(0.05)
+                if time.time() - t0 > 30:
+                    raise IOError('fake serial: read timed out (harness)')
+            if len(self.buf) < n:
+                raise IOError('fake serial closed')
+            data = bytes(self.buf[:n])
+            del self.buf[:n]
+            return data
+
+    def write(self, data):
+        data = bytes(bytearray(data))
+        if data == b'\xff\x00':
+            return len(data)                    # sync answer / clear-to-send from the host
+        if len(data) < 4 or data[0] != 0xFF or data[1] != len(data) - 3:
+            self.bad.append(data.hex())
+            return len(data)
+        x = 0
+        for b in data[:-1]:
+            x ^= b
+        if x != data[-1]:
+            self.bad.append('checksum ' + data.hex())
+        self.frames.append(data[2:-1])
+        self.feed(b'\xff\x00')                  # clear to send: the host may write its next frame
+        return len(data)
+
+    def feed(self, data):
+        with self.cv:
+            self.buf += data
+            self.cv.notify_all()
+
+    def close(self):
+        with self.cv:
+            self.closed = True
+            self.cv.notify_all()
+
+
+def run_serial_tunnel(case):
+    import types
+    import cflib.cpx.transports as T
+    import cflib.crtp.serialdriver as SD
+    from cflib.crtp.crtpstack import CRTPPacket
+    out = Outcome()
+    up, down = case['up'], case['down']
+    out.nontrivial = any(len(p[1]) in (0, 30) for p in up + down) or len(down) >= 2
+    out.feat('serial-up-%d' % min(len(up), 3), 'serial-down-%d' % min(len(down), 3), 'serial-full-size' if any(len(p[1]) == 30 for p in up + down) else 'serial-short')
+    ports = []
+
+    def Serial(*a, **k):
+        p_ = _FakeSerialPort(*a, **k)
+        ports.append(p_)
+        return p_
+    fake_serial = types.SimpleNamespace(Serial=Serial)
+    fake_ports = types.SimpleNamespace(comports=lambda: [types.SimpleNamespace(name='ttyFAKE0', device='/dev/ttyFAKE0')])
+    saved = (getattr(T, 'serial', None), SD.found_serial, getattr(SD, 'list_ports', None))
+    T.serial, SD.found_serial, SD.list_ports = fake_serial, True, fake_ports
+    errors = []
+    drv = SD.SerialDriver()
+    got = []
+    try:
+        with contextlib.redirect_stdout(io.StringIO()):
+            drv.connect('serial://ttyFAKE0', None, lambda m: errors.append(m))
+            port = ports[0]
+            for hdr, payload in up:
+                pk = CRTPPacket()
+                pk.set_header((hdr >> 4) & 0xF, hdr & 3)
+                pk.data = bytes(payload)
+                drv.send_packet(pk)
+            for hdr, payload in down:
+                wire = _ref_wire(1, 3, 3, False, [hdr] + list(payload))
+                frame = bytes([0xFF, len(wire)]) + wire
+                x = 0
+                for b in frame:
+                    x ^= b
+                port.feed(frame + bytes([x]))
+            t0 = time.time()
+            while len(got) < len(down):
+                p = drv.receive_packet(0.05)
+                if p is not None:
+                    got.append(p)
+                elif time.time() - t0 > 3 + 0.02 * len(down):
+                    break
+            extra = drv.receive_packet(0.05)
+            if extra is not None:
+                got.append(extra)
+    finally:
+        for p_ in ports:
+            p_.close()
+        try:
+            th = getattr(drv, '_thread', None)
+            if th is not None:
+                th.sp = True
+        except Exception:  # noqa
+            pass
+        T.serial, SD.found_serial, SD.list_ports = saved
+        if saved[0] is None and hasattr(T, 'serial'):
+            del T.serial
+        if saved[2] is None and hasattr(SD, 'list_ports'):
+            del SD.list_ports
+    if not ports:
+        out.fail('serial:no-port-opened', repr(errors)[:200])
+        return out
+    port = ports[0]
+    if port.bad:
+        out.fail('serial:frame-format', repr(port.bad[:3]))
+    want = [_ref_wire(3, 1, 1, False, [0x21, 0x01]), _ref_wire(3, 1, 1, False, [0x20, 0x01])]
+    for hdr, payload in up:
+        h = ((hdr >> 4) & 0xF) << 4 | 0x0C | (hdr & 3)
+        want.append(_ref_wire(3, 1, 3, False, [h] + list(payload)))
+    if [bytes(f) for f in port.frames] != want:
+        out.fail('serial:uplink', 'port saw %r expected %r' % ([f.hex() for f in port.frames], [w.hex() for w in want]))
+    gd = [((p.port << 4) | p.channel, bytes(p.data)) for p in got]
+    wd = [(hdr & 0xF3, bytes(payload)) for hdr, payload in down]
+    if gd != wd:
+        out.fail('serial:downlink', 'device sent %r, driver delivered %r' % ([(hex(h), d.hex()) for h, d in wd], [(hex(h), d.hex()) for h, d in gd]))
+    return out
+
+
 _crtp = st.tuples(st.integers(0, 255), st.one_of(st.lists(st.integers(0, 255), max_size=30), st.sampled_from([[], [0], [255] * 30])))
 
 
@@ -540,4 +672,5 @@ def subchecks(tier):
             examples={'quick': 200, 'thorough': 5000}),
         Sub('routing', run_routing, strategy=routing_strategy(), examples={'quick': 800, 'thorough': 50000}),
         Sub('tunnel', run_tunnel, strategy=tunnel_strategy(), examples={'quick': 60, 'thorough': 1500}),
+        Sub('serial-tunnel', run_serial_tunnel, strategy=tunnel_strategy(), examples={'quick': 60, 'thorough': 1500}),
     ]
